@@ -98,6 +98,7 @@ def ans_traces(ctx, exact, abstract):
 
 @prop("C01")
 def c01(ctx):
+    py_traces(ctx, ["ans"])
     ans_traces(ctx, exact=False, abstract=True)
     ans_states(ctx, ["TypeInv", "StateInv", "LawPopAfterPush", "LawImportExport"], "c01")
     ctx.require("batch_forms")
@@ -119,7 +120,8 @@ def py_traces(ctx, coders):
     ctx.validate_traces(jobs)
     for coder in coders:
         for c in {"ans": ("py_enc_family_fast", "py_dec_iid_array", "py_from_binary", "py_seek", "py_model_fast_lazy", "py_model_leaky"),
-                  "range": ("py_enc_steered", "py_dec_family_leaky", "py_seek", "py_dec_invalid_data", "py_exhausted_after_message")}.get(coder, ()):
+                  "range": ("py_enc_steered", "py_dec_family_leaky", "py_seek", "py_dec_invalid_data", "py_exhausted_after_message"),
+                  "chain": ("py_restored_same", "py_restored_suffix", "py_restored_concat", "py_dec_out_of_data_single", "py_ctor_compressed", "py_dec_family_fast")}.get(coder, ()):
             ctx.require(c)
     if "range" in coders:
         ctx.require("trace_steps_with_words_held_back")
@@ -256,6 +258,7 @@ def range_steered(ctx, exact):
 
 @prop("C02")
 def c02(ctx):
+    py_traces(ctx, ["range"])
     range_traces(ctx, exact=False)
     range_steered(ctx, exact=False)
     range_hists(ctx, ["TypeInv", "StateInv", "RoundTrip", "ExhaustedAfter", "EmptyMessage", "InSync"], "c02")
@@ -329,6 +332,7 @@ def c08(ctx):
 
 @prop("C10")
 def c10(ctx):
+    py_traces(ctx, ["chain", "range"])        # documented errors only (out of data, invalid data), never a panic, through the Python API
     c10_ans(ctx)
     chain_cases(ctx, "c10", ["StateInv"])
     ctx.require("ran_out_of_data")
@@ -556,6 +560,7 @@ def chain_traces(ctx):
 
 @prop("C13")
 def c13(ctx):
+    py_traces(ctx, ["chain"])
     chain_traces(ctx)
     chain_cases(ctx, "c13")
     for c in ("precision_change", "out_of_data", "out_of_remainders"):
